@@ -45,6 +45,10 @@ class Site:
                 out[path] = Page(200, body, delay=p.get('delay'))
             elif k == 'leaf':
                 out[path] = Page(200, b'leaf data', ctype=p.get('ctype', 'text/plain'), delay=p.get('delay'))
+            elif k == 'sitemap':
+                body = ('<?xml version="1.0" encoding="UTF-8"?><urlset xmlns="http://www.sitemaps.org/schemas/sitemap/0.9">'
+                        + ''.join('<url><loc>http://%s%s</loc></url>' % (HOST, r) for r, _ in p['links']) + '</urlset>').encode()
+                out[path] = Page(200, body, ctype='application/xml', delay=p.get('delay'))
             elif k == 'redirect':
                 out[path] = Page(p.get('code', 301), b'', location=p['location'], delay=p.get('delay'))
             elif k == 'missing':
@@ -90,6 +94,10 @@ INLINE_FORMS = [
 ]
 
 
+UNTYPED_INLINE_FORMS = ['<img src="%s">', '<table background="%s"></table>', '<input type="image" src="%s">', '<img lowsrc="%s">',
+                        '<object data="%s"></object>', '<bgsound src="%s">']
+
+
 def html_varied(links, salt, meta=None):
     """The page of `html`, with each reference written in one of the element forms the scraper knows: the ordinary
     links as <a>, <area>, <form action>, <link rel=next>, meta refresh; the embedded objects as <img>, <script>,
@@ -101,6 +109,10 @@ def html_varied(links, salt, meta=None):
     parts.append('</head><body>')
     for k, (ref, inline) in enumerate(links):
         forms = INLINE_FORMS if inline else LINK_FORMS
+        if inline and not ref.split('#')[0].endswith('.png'):
+            # the forms that carry a link-type hint (script, stylesheet, icon, CSS url()) only for images: a document
+            # stored first under such a hint is never scraped as HTML (first record wins, see notes/C01.md round 6)
+            forms = UNTYPED_INLINE_FORMS
         plain = len(ref) < 2 or ref.startswith('#')
         parts.append(forms[0 if plain else (salt + 3 * k) % len(forms)] % ref)
     parts.append('</body></html>')
@@ -225,7 +237,15 @@ def gen_site(rng, size=None, redirects=True, inline=True, offsite=True, deep=Fal
         s.pages['/d-old/index.html'] = {'kind': 'html', 'links': [('/d-old/f.html', False), ('/d/sub/leaf.txt', False)]}
         s.pages['/d-old/f.html'] = {'kind': 'leaf'}
         s.pages['/d2/c.html'] = {'kind': 'leaf'}
-    if redirects and rng.random() < 0.25:
+    if rng.random() < 0.3:
+        # what --sitemaps is for: /sitemap.xml lists pages, one of them listed nowhere else; the start page may be gone
+        # (404), so that everything hangs on the two URLs queued next to every start URL (robots.txt, sitemap.xml)
+        s.pages['/sitemap.xml'] = {'kind': 'sitemap', 'links': [(t, False) for t in rng.sample(paths, min(len(paths), 3))] + [('/only-in-sitemap.html', False)]}
+        s.pages['/only-in-sitemap.html'] = {'kind': 'html', 'links': [('/from-sitemap-page.txt', False)]}
+        s.pages['/from-sitemap-page.txt'] = {'kind': 'leaf'}
+        if not start_deep and rng.random() < 0.4:
+            s.pages['/'] = {'kind': 'missing'}
+    if redirects and rng.random() < 0.25 and s.pages['/' if not start_deep else '/d/start.html']['kind'] == 'html':
         # a moved section: more same-host redirects in one crawl than a host has connections (6), each to a page
         # nobody else links to; whatever following a redirect costs, it must not add up
         hub = '/d/start.html' if start_deep else '/'
@@ -259,6 +279,8 @@ def gen_options(rng, levelfree=False):
         o['input_file'] = True
     if rng.random() < 0.15:
         o['quota'] = rng.choice(['inf', '0'])
+    if rng.random() < 0.2:
+        o['sitemaps'] = True
     return o
 
 
@@ -299,6 +321,8 @@ def option_argv(o):
         a.append('-N')
     if o.get('quota'):
         a += ['--quota', o['quota']]          # 'inf' / '0': no quota, spelled out
+    if o.get('sitemaps'):
+        a.append('--sitemaps')
     return a
 
 
@@ -372,6 +396,16 @@ class RefCrawl:
 
     def visit(self, url, level, inline_level, tries):
         """-> (requests, status, children[(url, inline)])"""
+        requests, status, kids = self._visit(url, level, inline_level, tries)
+        if level == 0 and self.o.get('sitemaps') and self.accept(url, level, inline_level, tries):
+            # --sitemaps: robots.txt and sitemap.xml of the origin are queued next to every start URL that the filters
+            # let through, whatever becomes of the fetch (ProcessingRule.add_extra_urls runs before it)
+            u = urllib.parse.urlsplit(url)
+            extra = [('%s://%s/robots.txt' % (u.scheme, u.netloc), False), ('%s://%s/sitemap.xml' % (u.scheme, u.netloc), False)]
+            kids = extra + [k for k in kids if k not in extra]
+        return requests, status, kids
+
+    def _visit(self, url, level, inline_level, tries):
         if not self.accept(url, level, inline_level, tries):
             return [], 's', []
         requests = []
@@ -397,7 +431,7 @@ class RefCrawl:
             return requests, 's', []
         if k == 'error':
             return requests, 'e', []
-        if k == 'leaf':
+        if k == 'leaf' or (k == 'sitemap' and not self.o.get('sitemaps')):
             return requests, 'd', []
         kids = []
         seen = set()
@@ -515,9 +549,19 @@ class RefCrawl:
                 if not why:
                     # expected only as a redirect hop of a visit that did not happen for an explained reason
                     for (p_url, _pl, _pi), reqs in self._hops.items():
-                        if u in reqs[1:] and out.get(p_url, 'plain') != 'plain':
+                        if u not in reqs[1:]:
+                            continue
+                        if out.get(p_url, 'plain') != 'plain':
                             why = out[p_url]
                             break
+                        if p_url in stored and stored[p_url] != (_pl, _pi):
+                            # the redirecting URL was visited, but under its stored (worse) record, for which
+                            # this hop is out of scope
+                            rec = stored[p_url]
+                            reqs2, _s, _k = self.visit(p_url, rec[0], rec[1], 0)
+                            if u not in reqs2:
+                                why = dimension(p_url, rec, [(_pl, _pi)])
+                                break
                 if why:
                     out[u] = why
                     changed = True
